@@ -439,6 +439,54 @@ def run_isar_host_text(chk, workdir):
                                            'model': m}, classify_host_text)
 
 
+def classify_enum_unsigned(case, detail):
+    """known finding D190: positive literals carry the suffix `u`, so inside its own enum an earlier enumerator is unsigned in C++:
+    the C++ value is the one 32-bit unsigned arithmetic gives, prophyc's and Python's the one integer arithmetic gives"""
+    v = detail.get('values', {})
+    if case.get('syntax') == 'isar-enum-own-reference' and v.get('calc') == v.get('python') == case.get('integer') and \
+            v.get('c++ full') == v.get('c++ raw') == case.get('unsigned') != case.get('integer'):
+        return 'D190'
+    return None
+
+
+def run_enum_own_reference(chk, workdir):
+    """isar enumerators that refer to earlier enumerators of their own enum: one integer in the layout, the Python module and both
+    C++ headers (an expression with a negative intermediate result is known finding D190)"""
+    import prophyc
+    import prophyc.model as M
+    cases = [('E_A + 1', 2, 2), ('(E_A + 3) * 2', 8, 8), ('((E_A - 3) >> 30) + 2', 1, 5), ('(E_A - 2) / 2 + 3', 2, 2147483650), ('E_A - 1', 0, 0)]
+    for i, (text, integer, unsigned) in enumerate(cases):
+        base = 'eo%d' % i
+        src = os.path.join(workdir, base + '.xml')
+        with open(src, 'w') as f:
+            f.write('<dom><enum name="EO"><enum-member name="E_A" value="1"/><enum-member name="E_B" value="%s"/></enum>'
+                    '<struct name="SO"><member name="e" type="EO"/></struct></dom>' % text.replace('>', '&gt;'))
+        icase = {'syntax': 'isar-enum-own-reference', 'expression': text, 'integer': integer, 'unsigned': unsigned}
+        chk.count(('enum-own', text), True)
+        chk.bump('kind:enum-own-reference')
+        try:
+            res, _ = py_impl.run_prophyc(['--isar', '--python_out', workdir, '--cpp_full_out', workdir, '--cpp_out', workdir, src])
+        except prophyc.ProphycError as ex:
+            chk.property_violation(icase, {'what': 'prophyc refuses a well-formed enumerator expression: %s' % str(ex)[:200]})
+            continue
+        seen = {'calc': M._collect_constants(res[base]).get('E_B')}
+        try:
+            seen['python'] = dict(py_impl.import_file(os.path.join(workdir, base + '.py')).EO._enumerators)['E_B']
+        except Exception as ex:  # noqa
+            seen['python'] = '%s: %s' % (type(ex).__name__, str(ex)[:80])
+        for key, hdr, ns in (('c++ full', base + '.ppf.hpp', 'prophy::generated::'), ('c++ raw', base + '.pp.hpp', '')):
+            prog = os.path.join(workdir, base + key[-3:].strip() + '_eo.cpp')
+            with open(prog, 'w') as f:
+                f.write('#include <stdio.h>\n#include "%s"\nint main() { printf("%%lld\\n", (long long)(unsigned)%sE_B); }\n' % (hdr, ns))
+            p = subprocess.run(['g++', '-std=c++11', '-I' + os.path.join(REPO, 'prophy_cpp', 'include'), '-I' + workdir, prog, '-o', prog[:-4]],
+                               stdout=subprocess.PIPE, stderr=subprocess.STDOUT, timeout=300)
+            seen[key] = int(subprocess.run([prog[:-4]], stdout=subprocess.PIPE, timeout=60).stdout.decode().split()[0]) if p.returncode == 0 else \
+                'does not compile: ' + p.stdout.decode(errors='replace')[:120]
+        if len(set(map(str, seen.values()))) != 1:
+            chk.property_violation(icase, {'what': 'an enumerator expression over its own enum denotes different integers in prophyc and its back-ends', 'values': seen},
+                                   classify_enum_unsigned)
+
+
 def isar_expand(text):
     import prophyc.parsers.isar as I
     return I.expand_operators(text)
@@ -516,6 +564,7 @@ def run_c14(tier):
         run_isar_stream(chk, workdir, chk.scale(40, 400), c_safe=True)
         run_isar_stream(chk, workdir, chk.scale(15, 100), c_safe=False)
         run_isar_host_text(chk, workdir)
+        run_enum_own_reference(chk, workdir)
         run_const_edges(chk, workdir)
     finally:
         shutil.rmtree(workdir, ignore_errors=True)
